@@ -29,6 +29,10 @@
           DupClears = FALSE     seeded: a REPLACED inbound stream (the peer opened a second one) reports no ClosedStream, so
                                 what was learnt on it survives although the new stream's hello no longer announces it
           CancelIdempotent = FALSE / RelayCancelIdempotent = FALSE   seeded: see CancelAgain / UnrelayAgain
+          SubsBeforeAccept = FALSE  seeded: handleIncomingRPC asks the router (AcceptFrom) BEFORE the subscription bookkeeping:
+                                an RPC of a peer the router answers AcceptNone for (gossipsub: score below the graylist
+                                threshold) is dropped whole, its (un)subscriptions and its hello never reach p.topics.
+                                acc[p] = the router's current answer for p ("all" | "control" = gater-throttled | "none")
    The constants TRUE are the checked behaviour (the repaired code: D19 = ClosedOrdered, D20 = RetryFanoutAware are fixed
    in the tree; FixD12 is the property, the tree still deviates: known finding D12). *)
 EXTENDS Naturals, Sequences, FiniteSets, TLC
@@ -36,16 +40,16 @@ EXTENDS Naturals, Sequences, FiniteSets, TLC
 CONSTANTS Topics, Peers, Cap,
           MaxOps, MaxDrops, MaxResetOut, MaxResetIn, MaxDisc, MaxGate, MaxHold, MaxRemote, MaxRef,
           AllowFanout, AllowRepeat,
-          MaxDup,
-          FixD12, RetryRechecks, RetryFanoutAware, ClosedOrdered, DupClears, CancelIdempotent, RelayCancelIdempotent
+          MaxDup, MaxAcc,
+          FixD12, RetryRechecks, RetryFanoutAware, ClosedOrdered, DupClears, CancelIdempotent, RelayCancelIdempotent, SubsBeforeAccept
 
 VARIABLES subs, relays, kind,        \* the CODE's bookkeeping: len(mySubs[t]), myRelays[t], topic handle
           live, rlive,               \* the TRUTH: live Subscription handles / not yet cancelled RelayCancelFuncs of the application
           stale, rstale,             \* some already cancelled Subscription / relay-cancel handle of t exists (can be cancelled AGAIN)
           conn, out, inb, q, infl, gated, hold, retry, wf, their, bel,
-          pclose, cnt, bad
+          pclose, acc, cnt, bad
 
-vars == <<subs, relays, kind, live, rlive, stale, rstale, conn, out, inb, q, infl, gated, hold, retry, wf, their, bel, pclose, cnt, bad>>
+vars == <<subs, relays, kind, live, rlive, stale, rstale, conn, out, inb, q, infl, gated, hold, retry, wf, their, bel, pclose, acc, cnt, bad>>
 nutv == <<subs, relays, kind, live, rlive, stale, rstale>>
 
 None == <<>>
@@ -69,8 +73,8 @@ Init ==
     /\ gated = [p \in Peers |-> FALSE] /\ hold = [p \in Peers |-> FALSE]
     /\ retry = {} /\ wf = [p \in Peers |-> NoWire]
     /\ their = [p \in Peers |-> [t \in Topics |-> FALSE]]
-    /\ bel = [t \in Topics |-> {}] /\ pclose = [p \in Peers |-> FALSE]
-    /\ cnt = [ops |-> 0, drops |-> 0, rout |-> 0, rin |-> 0, disc |-> 0, gate |-> 0, hold |-> 0, remote |-> 0, dup |-> 0]
+    /\ bel = [t \in Topics |-> {}] /\ pclose = [p \in Peers |-> FALSE] /\ acc = [p \in Peers |-> "all"]
+    /\ cnt = [ops |-> 0, drops |-> 0, rout |-> 0, rin |-> 0, disc |-> 0, gate |-> 0, hold |-> 0, remote |-> 0, dup |-> 0, acc |-> 0]
     /\ bad = {}
 
 Bump(f) == cnt' = [cnt EXCEPT ![f] = @ + 1]
@@ -99,7 +103,7 @@ ApiOp(t, nv, ann, b) ==
     /\ bad' = bad \cup (IF ann /\ ~(i0 # i1 /\ b = i1) THEN {"spurious"} ELSE {})
                   \cup (IF ~ann /\ i0 # i1 THEN {"missing"} ELSE {})
     /\ IF ann THEN PushAll(t, b, c) ELSE cnt' = c /\ UNCHANGED <<q, retry>>
-    /\ UNCHANGED <<pclose, conn, out, inb, infl, gated, hold, wf, their, bel>>
+    /\ UNCHANGED <<acc, pclose, conn, out, inb, infl, gated, hold, wf, their, bel>>
 
 Joined(nv, t) == IF nv.kind[t] = "none" THEN [nv EXCEPT !.kind[t] = "normal"] ELSE nv
 
@@ -159,47 +163,50 @@ CloseTopic(t) ==
 
 ----------------------------------------------------------------------------
 (* connection and streams *)
+\* handleIncomingRPC does the subscription bookkeeping FIRST and asks the router afterwards: only messages and control of a
+\* graylisted (AcceptNone) or throttled (AcceptControl) sender are dropped, its announcements are always heard
+Heard(p) == SubsBeforeAccept \/ acc[p] # "none"
 Forget(p) == bel' = [t \in Topics |-> bel[t] \ {p}]
 Learn(p)  == bel' = [t \in Topics |-> IF their[p][t] THEN bel[t] \cup {p} ELSE bel[t] \ {p}]
 
 PeerConnect(p) ==
     /\ ~conn[p] /\ conn' = [conn EXCEPT ![p] = TRUE]
-    /\ UNCHANGED <<pclose, nutv, out, inb, q, infl, gated, hold, retry, wf, their, bel, cnt, bad>>
+    /\ UNCHANGED <<acc, pclose, nutv, out, inb, q, infl, gated, hold, retry, wf, their, bel, cnt, bad>>
 
 \* handlePendingPeers: the queue exists from now on, the stream does not yet
 QueueCreated(p) ==
     /\ conn[p] /\ out[p] = "none"
     /\ out' = [out EXCEPT ![p] = "queueOnly"] /\ q' = [q EXCEPT ![p] = <<>>]
-    /\ UNCHANGED <<pclose, nutv, conn, inb, infl, gated, hold, retry, wf, their, bel, cnt, bad>>
+    /\ UNCHANGED <<acc, pclose, nutv, conn, inb, infl, gated, hold, retry, wf, their, bel, cnt, bad>>
 
 \* case s := <-p.newPeerStream: the hello is the CURRENT interest, written before the queue contents
 StreamUp(p) ==
     /\ out[p] = "queueOnly" /\ ~hold[p]
     /\ out' = [out EXCEPT ![p] = "up"]
     /\ wf' = [wf EXCEPT ![p] = [t \in Topics |-> CodeInterested(t)]]      \* getHelloPacket reads mySubs / myRelays
-    /\ UNCHANGED <<pclose, nutv, conn, inb, q, infl, gated, hold, retry, their, bel, cnt, bad>>
+    /\ UNCHANGED <<acc, pclose, nutv, conn, inb, q, infl, gated, hold, retry, their, bel, cnt, bad>>
 
 \* the remote's stream to the NUT comes up; a correct remote sends its hello on it
 RemoteOpen(p) ==
     /\ conn[p] /\ ~inb[p] /\ (ClosedOrdered => ~pclose[p])
-    /\ inb' = [inb EXCEPT ![p] = TRUE] /\ Learn(p)
-    /\ UNCHANGED <<pclose, nutv, conn, out, q, infl, gated, hold, retry, wf, their, cnt, bad>>
+    /\ inb' = [inb EXCEPT ![p] = TRUE] /\ (IF Heard(p) THEN Learn(p) ELSE UNCHANGED bel)
+    /\ UNCHANGED <<acc, pclose, nutv, conn, out, q, infl, gated, hold, retry, wf, their, cnt, bad>>
 
 \* case incomingKindClosedStream: onClosedIncomingStream -> clearPeerFromTopicsState
 ClosedStream(p) ==
     /\ pclose[p] /\ pclose' = [pclose EXCEPT ![p] = FALSE] /\ Forget(p)
-    /\ UNCHANGED <<nutv, conn, out, inb, q, infl, gated, hold, retry, wf, their, cnt, bad>>
+    /\ UNCHANGED <<acc, nutv, conn, out, inb, q, infl, gated, hold, retry, wf, their, cnt, bad>>
 
 WriterPop(p) ==
     /\ out[p] = "up" /\ infl[p] = None /\ q[p] # <<>>
     /\ infl' = [infl EXCEPT ![p] = Head(q[p])] /\ q' = [q EXCEPT ![p] = Tail(q[p])]
-    /\ UNCHANGED <<pclose, nutv, conn, out, inb, gated, hold, retry, wf, their, bel, cnt, bad>>
+    /\ UNCHANGED <<acc, pclose, nutv, conn, out, inb, gated, hold, retry, wf, their, bel, cnt, bad>>
 
 WriterWrite(p) ==
     /\ infl[p] # None /\ ~gated[p]
     /\ wf' = [wf EXCEPT ![p][infl[p][1]] = infl[p][2]]
     /\ infl' = [infl EXCEPT ![p] = None]
-    /\ UNCHANGED <<pclose, nutv, conn, out, inb, q, gated, hold, retry, their, bel, cnt, bad>>
+    /\ UNCHANGED <<acc, pclose, nutv, conn, out, inb, q, gated, hold, retry, their, bel, cnt, bad>>
 
 \* announceRetry after its sleep: the closure runs inside the loop and looks at the CURRENT state
 RetryFire(r) ==
@@ -212,14 +219,14 @@ RetryFire(r) ==
                    THEN q' = [q EXCEPT ![p] = Append(@, <<t, b>>)] /\ retry' = retry \ {r} /\ UNCHANGED cnt
                    ELSE cnt.drops < MaxDrops /\ Bump("drops") /\ UNCHANGED <<q, retry>>   \* dropped again: a new retry
          ELSE retry' = retry \ {r} /\ UNCHANGED <<pclose, q, cnt, bad>>
-    /\ UNCHANGED <<pclose, nutv, conn, out, inb, infl, gated, hold, wf, their, bel>>
+    /\ UNCHANGED <<acc, pclose, nutv, conn, out, inb, infl, gated, hold, wf, their, bel>>
 
 \* the remote changes its mind; the announcement reaches the NUT if its stream is up (else the next hello carries it)
 RemoteSub(p, t) ==
     /\ conn[p] /\ cnt.remote < MaxRemote /\ Bump("remote")
     /\ their' = [their EXCEPT ![p][t] = ~@]
-    /\ bel' = IF inb[p] THEN [bel EXCEPT ![t] = IF their[p][t] THEN @ \ {p} ELSE @ \cup {p}] ELSE bel
-    /\ UNCHANGED <<pclose, nutv, conn, out, inb, q, infl, gated, hold, retry, wf, bad>>
+    /\ bel' = IF inb[p] /\ Heard(p) THEN [bel EXCEPT ![t] = IF their[p][t] THEN @ \ {p} ELSE @ \cup {p}] ELSE bel
+    /\ UNCHANGED <<acc, pclose, nutv, conn, out, inb, q, infl, gated, hold, retry, wf, bad>>
 
 (* the remote opens a SECOND stream to the NUT without closing the first, and its hello announces its CURRENT interest S,
    which differs from what it said on the first stream. handleNewStream replaces the handler: the old stream is reset,
@@ -228,8 +235,8 @@ InDup(p, S) ==
     /\ conn[p] /\ inb[p] /\ ~pclose[p] /\ cnt.dup < MaxDup /\ Bump("dup")
     /\ S # their[p] /\ \E t \in Topics : S[t]          \* an empty hello is not written at all
     /\ their' = [their EXCEPT ![p] = S]
-    /\ bel' = [t \in Topics |-> IF S[t] THEN bel[t] \cup {p} ELSE IF DupClears THEN bel[t] \ {p} ELSE bel[t]]
-    /\ UNCHANGED <<pclose, nutv, conn, out, inb, q, infl, gated, hold, retry, wf, bad>>
+    /\ bel' = [t \in Topics |-> IF S[t] /\ Heard(p) THEN bel[t] \cup {p} ELSE IF DupClears THEN bel[t] \ {p} ELSE bel[t]]
+    /\ UNCHANGED <<acc, pclose, nutv, conn, out, inb, q, infl, gated, hold, retry, wf, bad>>
 
 (* only the NUT's outbound stream dies, the connection survives: handleDeadPeers closes the queue, clears what was
    learnt from the peer's INBOUND stream (as found), and respawns the writer with a fresh queue *)
@@ -238,29 +245,34 @@ ResetOutbound(p) ==
     /\ out' = [out EXCEPT ![p] = "queueOnly"] /\ q' = [q EXCEPT ![p] = <<>>] /\ infl' = [infl EXCEPT ![p] = None]
     /\ wf' = [wf EXCEPT ![p] = NoWire]
     /\ IF FixD12 THEN UNCHANGED bel ELSE Forget(p)
-    /\ UNCHANGED <<pclose, nutv, conn, inb, gated, hold, retry, their, bad>>
+    /\ UNCHANGED <<acc, pclose, nutv, conn, inb, gated, hold, retry, their, bad>>
 
 \* only the NUT's inbound stream dies: onClosedIncomingStream clears; the remote respawns and re-sends its hello (RemoteOpen)
 ResetInbound(p) ==
     /\ conn[p] /\ inb[p] /\ ~pclose[p] /\ cnt.rin < MaxResetIn /\ Bump("rin")
     /\ inb' = [inb EXCEPT ![p] = FALSE] /\ pclose' = [pclose EXCEPT ![p] = TRUE]
-    /\ UNCHANGED <<nutv, conn, out, q, infl, gated, hold, retry, wf, their, bel, bad>>
+    /\ UNCHANGED <<acc, nutv, conn, out, q, infl, gated, hold, retry, wf, their, bel, bad>>
 
 Disconnect(p) ==
     /\ conn[p] /\ cnt.disc < MaxDisc /\ Bump("disc")
     /\ conn' = [conn EXCEPT ![p] = FALSE] /\ out' = [out EXCEPT ![p] = "none"] /\ inb' = [inb EXCEPT ![p] = FALSE]
     /\ q' = [q EXCEPT ![p] = <<>>] /\ infl' = [infl EXCEPT ![p] = None] /\ wf' = [wf EXCEPT ![p] = NoWire]
     /\ Forget(p) /\ pclose' = [pclose EXCEPT ![p] = FALSE]
-    /\ UNCHANGED <<nutv, gated, hold, retry, their, bad>>
+    /\ UNCHANGED <<acc, nutv, gated, hold, retry, their, bad>>
 
 Gate(p)    == /\ ~gated[p] /\ cnt.gate < MaxGate /\ Bump("gate") /\ gated' = [gated EXCEPT ![p] = TRUE]
-              /\ UNCHANGED <<pclose, nutv, conn, out, inb, q, infl, hold, retry, wf, their, bel, bad>>
+              /\ UNCHANGED <<acc, pclose, nutv, conn, out, inb, q, infl, hold, retry, wf, their, bel, bad>>
 Ungate(p)  == /\ gated[p] /\ gated' = [gated EXCEPT ![p] = FALSE]
-              /\ UNCHANGED <<pclose, nutv, conn, out, inb, q, infl, hold, retry, wf, their, bel, cnt, bad>>
+              /\ UNCHANGED <<acc, pclose, nutv, conn, out, inb, q, infl, hold, retry, wf, their, bel, cnt, bad>>
 Hold(p)    == /\ ~hold[p] /\ out[p] # "up" /\ cnt.hold < MaxHold /\ Bump("hold") /\ hold' = [hold EXCEPT ![p] = TRUE]
-              /\ UNCHANGED <<pclose, nutv, conn, out, inb, q, infl, gated, retry, wf, their, bel, bad>>
+              /\ UNCHANGED <<acc, pclose, nutv, conn, out, inb, q, infl, gated, retry, wf, their, bel, bad>>
 Release(p) == /\ hold[p] /\ hold' = [hold EXCEPT ![p] = FALSE]
-              /\ UNCHANGED <<pclose, nutv, conn, out, inb, q, infl, gated, retry, wf, their, bel, cnt, bad>>
+              /\ UNCHANGED <<acc, pclose, nutv, conn, out, inb, q, infl, gated, retry, wf, their, bel, cnt, bad>>
+
+\* the router changes its mind about p (score crosses the graylist threshold, the gater starts / stops throttling)
+SetAccept(p, v) ==
+    /\ conn[p] /\ acc[p] # v /\ cnt.acc < MaxAcc /\ Bump("acc") /\ acc' = [acc EXCEPT ![p] = v]
+    /\ UNCHANGED <<pclose, nutv, conn, out, inb, q, infl, gated, hold, retry, wf, their, bel, bad>>
 
 Internal ==
     \/ \E p \in Peers : QueueCreated(p) \/ StreamUp(p) \/ RemoteOpen(p) \/ ClosedStream(p) \/ WriterPop(p) \/ WriterWrite(p)
@@ -272,6 +284,7 @@ Env ==
                          \/ Gate(p) \/ Ungate(p) \/ Hold(p) \/ Release(p)
     \/ \E p \in Peers, t \in Topics : RemoteSub(p, t)
     \/ \E p \in Peers, S \in [Topics -> BOOLEAN] : InDup(p, S)
+    \/ \E p \in Peers, v \in {"all", "control", "none"} : SetAccept(p, v)
 
 Next == Internal \/ Env
 Spec == Init /\ [][Next]_vars
